@@ -53,6 +53,28 @@ let handle (w : string list) : string =
      | Some l -> Printf.sprintf "off=%s cap=%s rd=%s wr=%s dend=%s hw=%s free=%s room=%s wf=%s"
          (zs l.l_off) (zs l.l_cap) (show_bool l.l_rd) (show_bool l.l_wr) (zs l.l_dend) (zs l.l_hw)
          (zs (t2_free_after_tag l)) (zs (room (t2_free_after_tag l))) (show_bool (wf_layoutb m)))
+  | ["t1_write"; hr; m; d] ->
+    let hr0 = List.hd (bytes_of_hex hr) in
+    let ((((r, ws), m'), f), c) = t1_write_obs hr0 (bytes_of_hex m) (bytes_of_hex d) in
+    String.concat " | " [show_res (fun _ -> "") r; show_cmds ws; hex_of_bytes m'; show_fresh f; show_cap c]
+  | ["t1_format"; hr; m; wp] ->
+    let h = bytes_of_hex hr in
+    let ((((r, ws), m'), f), c) = t1_format_obs (List.nth h 0) (List.nth h 1) (bytes_of_hex m) (wipe_arg wp) in
+    let show_ob = function Some b -> " " ^ show_bool b | None -> " none" in
+    String.concat " | " [show_res show_ob r; show_cmds ws; hex_of_bytes m'; show_fresh f; show_cap c]
+  | ["t1_cut"; hr; m; d] ->
+    let hr0 = List.hd (bytes_of_hex hr) in
+    String.concat ";" (List.map show_fresh (t1_cut_obs hr0 (bytes_of_hex m) (bytes_of_hex d)))
+  | ["t1_fresh"; hr; m] ->
+    let hr0 = List.hd (bytes_of_hex hr) in let m = bytes_of_hex m in
+    show_fresh (t1_fresh hr0 m) ^ " | " ^ show_cap (t1_capacity hr0 m)
+  | ["t1_info"; hr; m] ->
+    let hr0 = List.hd (bytes_of_hex hr) in let m = bytes_of_hex m in
+    (match t1_layout hr0 m with
+     | None -> "none"
+     | Some l -> Printf.sprintf "off=%s cap=%s rd=%s wr=%s dend=%s hw=%s free=%s room=%s wf=%s"
+         (zs l.l_off) (zs l.l_cap) (show_bool l.l_rd) (show_bool l.l_wr) (zs l.l_dend) (zs l.l_hw)
+         (zs (t1_free_after_tag l)) (zs (room (t1_free_after_tag l))) (show_bool (t1_wf_layoutb hr0 m)))
   | ["lock_range"; a; b; c] -> let (lo, hi) = lock_byte_range (zi a) (zi b) (zi c) in zs lo ^ " " ^ zs hi
   | ["rsvd_range"; a; b; c] -> let (lo, hi) = rsvd_byte_range (zi a) (zi b) (zi c) in zs lo ^ " " ^ zs hi
   | _ -> "?unknown-command"
